@@ -100,6 +100,17 @@ CHECKS = {
        '(65 sites). Exactly-once execution and scheduling order are properties of dask and are not decided.',
   note='Trusted: dask graph specification (tuple = call), networkx relabel_nodes(copy=True) keeps node order.',
   ref='DESIGN.md §2 C17'),
+ 'C03': dict(
+  technique='parser-option / grammar-file agreement, regex-AST (re._parser) first-set and capture-group analysis of '
+            'ignored terminals and splitters, purity of the printing methods, identity-equality requirement of '
+            'records, CFG dominance of destructive record resets, loop-carried stale-length lint',
+  text='Lossless parse->print follows from S1-S5 for every accepted text (all parser classes, all grammar files, '
+       'both splitters, all __str__), which no finite set of example files can show; S6 and S8 are necessary '
+       'conditions of "edits touch only what changed". Frame preservation of run-time tree edits in the record '
+       'updaters is not decided here (the parameter records are treated under C04).',
+  note='Trusted: lark keeps every token with keep_all_tokens and reports exact positions; the re-tokeniser alphabet '
+       'is read from ignored.py.',
+  ref='DESIGN.md §2 C03'),
 }
 NA = {}
 
